@@ -56,7 +56,18 @@ def run_case(ctx, g):
     pr = scen.make_problem(rng, n=int(rng.integers(2, 11)), p=int(rng.choice([1, 2, 2, 3])), q=int(rng.choice([0, 0, 0, 1, 2])))
     c = kern.canon(pr)
     explicit_tref = False
-    if pr.q == 0 and pr.keys == "single" and rng.random() < 0.6:
+    disabled_tref = False
+    if pr.q == 0 and pr.keys == "single" and g["index"] % 6 == 5:
+        # RVData(t_ref=False): "disable subtracting the reference time" - the sampler's epoch is BMJD 0
+        disabled_tref = True
+        explicit_tref = True
+        sv = pr.surveys[0]
+        pr.data = tj.RVData(t=sv["t"], rv=sv["rv"] * scen.U(sv["unit"]), rv_err=sv["err"] * scen.U(sv.get("err_unit", sv["unit"])),
+                            t_ref=False)
+        c["t_ref"] = 0.0
+        c["trend"] = pr.trend_matrix(c["t"], c["label"], 0.0)
+        ctx.count("disabled_tref")
+    elif pr.q == 0 and pr.keys == "single" and rng.random() < 0.6:
         # explicit reference epoch different from the earliest time
         explicit_tref = True
         tr = float(np.round((c["t_ref"] - rng.uniform(1, 200)) * 8) / 8)
@@ -91,7 +102,9 @@ def run_case(ctx, g):
     # ---- R4 ----
     ctx.evaluated(R4, (g["index"],) if (explicit_tref or pr.q > 0) else None)
     got_tref = None if out.t_ref is None else float(out.t_ref.tcb.mjd)
-    if got_tref is None or abs(got_tref - c["t_ref"]) > 1e-9:
+    if disabled_tref and got_tref is None:
+        pass       # the data have no reference epoch and neither have the samples: times are absolute (epoch BMJD 0)
+    elif got_tref is None or abs(got_tref - c["t_ref"]) > 1e-9:
         ctx.violation(R4, g, inp0, dict(samples_t_ref=got_tref), dict(data_t_ref=c["t_ref"]),
                       "posterior samples must carry the data's reference epoch", tags=tags0)
         return
@@ -133,8 +146,15 @@ def run_case(ctx, g):
         # ---- R1: RV curve at the data epochs and at other times ----
         t_other = c["t_ref"] + rng.uniform(-300, 3000, 5)
         tt = np.concatenate([c["t"], t_other])
-        orbit = out.get_orbit(r)
-        rv_api = orbit.radial_velocity(Time(tt, format="mjd", scale="tcb")).to_value(du)
+        try:
+            orbit = out.get_orbit(r)
+            rv_api = orbit.radial_velocity(Time(tt, format="mjd", scale="tcb")).to_value(du)
+        except Exception as e:   # noqa: BLE001
+            ctx.evaluated(R1, nontriv)
+            ctx.violation(R1, g, inp, f"{type(e).__name__}: {str(e)[:200]}", None,
+                          "the orbit of a returned row must be reconstructible (get_orbit(i).radial_velocity(t)) for every "
+                          "accepted data set", tags=dict(tags0, what="exception"))
+            return
         kep = scen.kepler_column(tt, th["P"], th["e"], th["omega"], th["M0"], c["t_ref"])
         dt = tt - c["t_ref"]
         vtr = x[2 + pr.q:]
@@ -207,14 +227,27 @@ def run_case(ctx, g):
     # ---- hand-built rows (not produced by the sampler): R1 only ----
     th = kern.theta_of(phys, int(rng.integers(0, N)))
     x = rng.normal(0, 5, len(names))
-    hb = tj.JokerSamples(t_ref=pr.data.t_ref if pr.keys == "single" else Time(c["t_ref"], format="mjd", scale="tcb"),
-                         poly_trend=pr.p, n_offsets=pr.q)
+    hb_tref = pr.data.t_ref if (pr.keys == "single" and pr.data.t_ref is not None) else Time(c["t_ref"], format="mjd", scale="tcb")
+    if g["index"] % 3 == 1:
+        # the documented numeric form of the reference epoch (BMJD, like RVData's numeric times)
+        hb_tref = float(c["t_ref"])
+        ctx.count("hand_built_rows:numeric t_ref")
+        if pr.p >= 2:
+            ctx.count("hand_built_rows:numeric t_ref with trend")
+    hb = tj.JokerSamples(t_ref=hb_tref, poly_trend=pr.p, n_offsets=pr.q)
     hb["P"] = [th["P"]] * u.day; hb["e"] = [th["e"]] * u.one; hb["omega"] = [th["omega"]] * u.rad
     hb["M0"] = [th["M0"]] * u.rad; hb["s"] = [th["s"]] * du
     for nm, un, v in zip(names, units, x):
         hb[nm] = [v] * un
     tt = np.concatenate([c["t"], c["t_ref"] + rng.uniform(-100, 1000, 4)])
-    rv_api = hb.get_orbit(0).radial_velocity(Time(tt, format="mjd", scale="tcb")).to_value(du)
+    try:
+        rv_api = hb.get_orbit(0).radial_velocity(Time(tt, format="mjd", scale="tcb")).to_value(du)
+    except Exception as e:   # noqa: BLE001
+        ctx.evaluated(R1, None)
+        ctx.violation(R1, g, dict(inp0, theta=th, x=x, hand_built=True, t_ref_given_as=type(hb_tref).__name__),
+                      f"{type(e).__name__}: {str(e)[:200]}", None,
+                      "the orbit of a hand-built row must be reconstructible", tags=dict(tags0, what="exception", hand_built=True))
+        return
     kep = scen.kepler_column(tt, th["P"], th["e"], th["omega"], th["M0"], c["t_ref"])
     dt = tt - c["t_ref"]
     vtr = x[2 + pr.q:]
@@ -230,6 +263,8 @@ def run_case(ctx, g):
 
 def post(ctx):
     ctx.rule = RULE
+    ctx.require("data with the reference epoch disabled (t_ref=False)", ctx.counters["disabled_tref"], 1)
+    ctx.require("hand-built rows with a numeric reference epoch and a trend", ctx.counters["hand_built_rows:numeric t_ref with trend"], 3)
     c = ctx.counters
     if not ctx.replay_mode:
         ctx.require("explicit t_ref cases", c["explicit_tref"], 2)
